@@ -52,7 +52,7 @@ VARIANTS = {
     6: 'delete_scratch_on_exit=False (no remove_tmpdir job)',
     7: 'extension / group member names that need shell quoting',
     8: 'input group whose two members have the same basename',
-    9: 'a reference immediately followed by a digit',
+    9: 'a reference immediately followed by a digit: uid 1 followed by "0" while resource 10 exists',
     10: 'external outputs of resource groups are written member by member (write_output(j.g.a, ...))',
     11: 'input file A is a local file (uploaded by the client before submission, downloaded by the job)',
 }
@@ -239,6 +239,10 @@ def _build(N, inp, var, obs, st, sb, fc):
     ext = ".e x'y" if var == 7 else '.e'
     ma, mb = ("a c", "b'd") if var == 7 else ('a', 'b')
     b = hb.Batch(backend=sb, name='c18')
+    dummies = []
+    if var == 9:
+        # ten more inputs first: they get uids 0..9, input file A gets uid 10
+        dummies = [b.read_input(f'gs://data/d/d{k}.txt') for k in range(10)]
     url_a = LOCAL_A if var == 11 else URL_A
     inA = b.read_input(url_a)
     inB = b.read_input(URL_B)
@@ -278,6 +282,9 @@ def _build(N, inp, var, obs, st, sb, fc):
             return
         pre = '--in=' if noise else ''
         t1 = Tmpl().lit(f': job{j}')
+        if var == 9:
+            # f'{d1}0': meant as the sibling file "<d1>0"; the text is __RESOURCE_FILE__1 + "0"
+            t1.lit('; : ').ref(None, dummies[1]).lit('0')
         for kind, i in rd:
             if kind == 'none':
                 continue
@@ -304,9 +311,6 @@ def _build(N, inp, var, obs, st, sb, fc):
                     tail = f' {shlex.quote(ma)}=tok{i}.a {shlex.quote(mb)}=tok{i}.b'
             t1.lit(f'\n{NOISE}\n' if noise else '; ')
             t1.lit(op + q).ref(key, res).lit(q + tail)
-            if var == 9:
-                # the same reference immediately followed by a digit, e.g. f'{j.ofile}0' as a sibling file name
-                t1.lit('; : ').ref(None, res).lit('0')
         t2 = Tmpl()
         if ok in (1, 2, 5):
             if ok == 2:
@@ -405,7 +409,11 @@ def evaluate(obs):
     errs = []
     N = obs['N']
     if obs['exc'] is not None:
-        return [('legitimate-pipeline-rejected', f'{obs["exc"][0]}: {obs["exc"][1][:200]}')]
+        # the front end refused the program before anything was submitted: no plumbing to be inconsistent (C18 does
+        # not promise that every program is accepted); counted and reported, not a violation
+        if obs['posts']:
+            return [('exception-after-submission', f'{obs["exc"][0]}: {obs["exc"][1][:200]}')]
+        return []
     posts = obs['posts']
     if len(posts) != 1 or not posts[0][0].endswith('/create-fast'):
         return [('nothing-submitted', f'{[p for p, _ in posts]}')]
@@ -447,6 +455,7 @@ def evaluate(obs):
         for segs in obs['templates'][j]:
             full = ''.join(s[1] if s[0] == 'lit' else '\0' for s in segs).strip()
             pat = ('(' + HOLE + ')').join(re.escape(x) for x in full.split('\0'))
+            pat = r'(?<=\n)' + pat + r'(?=\n)'      # a command occupies whole lines of the submitted script
             m = re.compile(pat).search(script, pos)
             if m is None:
                 errs.append(('command-text-altered', f'job {j}: submitted script does not contain the command '
@@ -568,7 +577,7 @@ def explore_shard(cfg):
     t0 = time.time()
     ex = shapesym.Explorer(_constraints(cfg, N), deadline=(t0 + cfg['deadline_s']) if cfg.get('deadline_s') else None)
     res = {'fix': cfg.get('fix', {}), 'paths': 0, 'pipelines': 0, 'not_a_pipeline': 0, 'queries': 0, 'twins_sat': 0,
-           'violating_paths': 0, 'classes': {}, 'samples': [], 'unknown': 0, 'kinds_seen': {}, 'variants_seen': {}}
+           'violating_paths': 0, 'classes': {}, 'rejected': 0, 'submitted': 0, 'rejections': {}, 'samples': [], 'unknown': 0, 'kinds_seen': {}, 'variants_seen': {}}
 
     def body():
         return build_and_submit(N, SymInputs(cfg))
@@ -582,6 +591,13 @@ def explore_shard(cfg):
             res['not_a_pipeline'] += 1
             return
         res['pipelines'] += 1
+        if obs['exc'] is not None and not obs['posts']:
+            res['rejected'] += 1
+            k = f'var={obs["var"]} {obs["exc"][0]}: {obs["exc"][1][:90]}'.split('__RESOURCE')[0]
+            e = res['rejections'].setdefault(k, {'count': 0, 'shape': _jsonable(obs['shape'])})
+            e['count'] += 1
+        else:
+            res['submitted'] += 1
         res['variants_seen'][str(obs['var'])] = res['variants_seen'].get(str(obs['var']), 0) + 1
         errs = evaluate(obs)
         viol = z3.BoolVal(bool(errs))
